@@ -188,6 +188,12 @@ def subst_values(name, dom, tier, siblings=None):
                     vals.append(("U", "exp", (), V(o, "real")))
         else:
             vals += [T((), shape, lid=33), T("j", shape, lid=34), V("v", "real", shape)]
+            # a batch of arrays whose batch size equals the leading event size (an index applied to the wrong block of
+            # dimensions is then silent), and one with two batch inputs
+            eq = [o for o in ("i", "j", "m") if SIZES[o] == shape[0]]
+            if eq:
+                vals.append(T(eq[0], shape, lid=35))
+            vals.append(T("ik", shape, lid=36))
         return vals
     if shape != ():
         return vals
